@@ -55,10 +55,20 @@ def canon(v):
     return {"t": "other", "cls": type(v).__name__}
 
 
+_SHARED = {}
+
+
 class C05Plug(SnowfakeryPlugin):
     class Functions:
         def mk(self, t, v=None):
             return decode(t, v)
+
+        def shared(self, t, v=None):
+            """the SAME Python object for the same (t, v): aliasing between fields and between rows"""
+            key = (t, v)
+            if key not in _SHARED:
+                _SHARED[key] = decode(t, v)
+            return _SHARED[key]
 
         def obs(self, x=None):
             # the prefix keeps the v3 dialect from re-reading the text as a Python literal
